@@ -338,6 +338,22 @@ func main() {
 			if tot := new(big.Int).Add(&sum, big.NewInt(o.Change)); wellFormed && tot.Cmp(big.NewInt(c.Reward)) > 0 {
 				st.Hist["note:map+change>reward"]++ // abnormal-CR credits: burnt and also left in change
 			}
+			// payouts + remainder never exceed the pool by more than the abnormal-CR credits
+			// (V2/V3: (seats - arbiters) block-confirm shares, each at most reward/4/seats)
+			if wellFormed && !early {
+				n2 := 2 * uint32(len(c.Arbs))
+				seats, n := int64(c.CRCCount+c.NormalCount), int64(len(c.Arbs))
+				lim := big.NewInt(c.Reward)
+				if (c.H >= c.HV3+n2 || c.H >= c.HV2+n2) && seats > n {
+					ex := new(big.Int).Mul(big.NewInt(c.Reward), big.NewInt(seats-n))
+					ex.Div(ex, big.NewInt(4*seats))
+					lim.Add(lim, ex)
+				}
+				lim.Add(lim, big.NewInt(1))
+				if tot := new(big.Int).Add(&sum, big.NewInt(o.Change)); tot.Cmp(lim) > 0 {
+					report("distributeDPOSReward:payouts+change-exceed-pool", fmt.Sprintf("payouts %s + remainder %d exceed the pool %d (+ abnormal-CR credits)", sum.String(), o.Change, c.Reward))
+				}
+			}
 			// map total <= paid + uncounted abnormal-CR credits (<= reward/4 + rounding), when votes add up
 			if wellFormed && sumVotes.Cmp(big.NewInt(c.Total)) <= 0 {
 				lim := new(big.Int).Sub(big.NewInt(c.Reward), big.NewInt(o.Change))
@@ -508,6 +524,17 @@ func main() {
 		one(mk(3, 2, []int64{50, 30, 10, 7, 3}, 100, 1, h), "corpus")
 		one(mk(1, 0, []int64{1}, 1, 3, h), "corpus")
 		one(mk(36, 36, nil, 1, 1<<53+1, h), "corpus")
+		// arbiters without votes next to voted ones
+		one(mk(4, 1, []int64{60, 0, 30, 0, 10}, 100, 7200000, h), "corpus")
+		// more arbiters than configured seats, few votes on the listed owners
+		{
+			c := mk(5, 1, []int64{3, 2, 1, 1, 1, 2}, 100, 7200000, h)
+			c.CRCCount, c.NormalCount = 1, 2
+			one(c, "corpus-over-seats")
+			c = mk(6, 0, []int64{0, 0, 1, 0, 0, 0}, 1000, 3600000, h)
+			c.CRCCount, c.NormalCount = 2, 3
+			one(c, "corpus-over-seats")
+		}
 	}
 	st.Sample(map[string]interface{}{"case": "3 arbiters 2 candidates votes 50/30/10/7/3 of 100, reward 1000000, V3", "out": func() obs { o, _, _ := runCase(mk(3, 2, []int64{50, 30, 10, 7, 3}, 100, 1000000, 3500)); return o }()})
 	st.Sample(map[string]interface{}{"case": "zero-vote round, 2 arbiters, reward 1000000, V3", "out": func() obs { o, _, _ := runCase(mk(2, 0, []int64{0, 0}, 0, 1000000, 3500)); return o }()})
